@@ -81,7 +81,7 @@ def replay(path, out):
         return k_cmdoutput.replay(path, out)
     wd = core.workdir("C14_replay")
     case = obj["case"]
-    cases, results = e2e.run_scripts(wd, [case["acts"]], case.get("cfg", {}), tag="replay", final=())
+    cases, results = e2e.run_scripts(wd, [case["acts"]], case.get("cfg", {}), tag="replay", final=(), vary=False)
     ev = e2e.proj_nocoalesce(results[0]["log"])
     res = e2e.validate("Trace_NoCoalesce", ev, os.path.join(wd, "tv"), CONSTS)
     print(json.dumps(res))
